@@ -64,7 +64,7 @@ def check(ctx):
     flagsets = [""] + ["".join(c) for n in range(1, 6) for c in itertools.combinations("-+ #0", n)]
     widths = ["", "", "1", "8", "14", "30", "*"]
     script = ["R"]
-    ds = doubles(rng, 40000 if ctx.thorough else 3000)
+    ds = doubles(rng, 150000 if ctx.thorough else 3000)
     n = 0
     for i, x in enumerate(ds):
         convs = "fFeEgG" if i < 300 else rng.sample("fFeEgG", 2)
